@@ -55,6 +55,8 @@ PLAN = {
     "C17": [
         dict(test="TestC17Exhaustive", kind="plain", quick=(0, 1), thorough=(0, 1), timeout_thorough=3600),
         dict(test="TestC17Random", quick=(15000, 8), thorough=(400000, 8)),
+        # node-level view in cluster executions with membership changes between heights
+        dict(test="TestC17S", quick=(1500, 8), thorough=(30000, 8), timeout_thorough=7200),
     ],
     "C19": [
         dict(test="TestC19FormulaDense", kind="plain", quick=(0, 1), thorough=(0, 1)),
